@@ -140,9 +140,8 @@ fn known_triggers(w: &World, k1: &BTreeMap<String, String>, k2: &BTreeMap<String
     w.resp.iter().any(|r| matches!(r, Resp::Module { items, .. } if items.iter().any(|it| f(&it.form))))
   };
   let mut triggers: Vec<&'static str> = vec![];
-  if !w.imports.is_empty() {
-    triggers.push("code-only-build-loads-configured-type-imports"); // F15
-  }
+  // (F15, "code-only-build-loads-configured-type-imports", was repaired: a graph that does not
+  // include types ignores the configured imports; worlds with them are no longer set aside)
   // (F16, "source-map-entry-dropped-by-prune", was repaired: prune_types keeps what a module's
   // source map resolves to; worlds with source maps are no longer set aside)
   if w.opts.skip_dynamic_deps {
